@@ -166,12 +166,6 @@ theorem kvGet_hashKV (hv : V → VH) (k : Key) : ∀ m : KVL V, kvGet (hashKV hv
 
 /-! ### the written operations -/
 
-theorem writesOf_keys : ∀ a : Actuals V, (writesOf a).map (·.1) = writtenKeys a
-  | [] => rfl
-  | (k, .read _) :: rest => by simpa [writesOf, writtenKeys] using writesOf_keys rest
-  | (k, .write w) :: rest => by simpa [writesOf, writtenKeys] using writesOf_keys rest
-  | (k, .rtw _ w) :: rest => by simpa [writesOf, writtenKeys] using writesOf_keys rest
-
 theorem writesOf_sublist_keys : ∀ a : Actuals V, ((writesOf a).map (·.1)).Sublist (a.map (·.1))
   | [] => List.Sublist.slnil
   | (k, .read _) :: rest => by
@@ -334,5 +328,33 @@ theorem finalizeStep_spec {load : Key → Outcome Unit (Option V)} {viewV : Key 
   cases hrb : P.rollback
   · simp
   · simp [finalize_eq_priorSpec hl hints a hr hs]
+
+/-! ### no-op writes, keys that are not written -/
+
+theorem kvWrite_self {m : KVL V} (hs : KSorted m) (k : Key) : kvWrite m k (kvGet m k) = m := by
+  apply kv_ext (kvWrite_sorted hs k _) hs
+  intro k'
+  rw [kvGet_kvWrite hs]
+  by_cases h : k' = k
+  · subst h; simp
+  · simp [h]
+
+/-- a batch that writes every key back to the value it has changes nothing -/
+theorem kvApply_noop : ∀ (ws : Writes V) {m : KVL V}, KSorted m → (∀ kw ∈ ws, kw.2 = kvGet m kw.1) → kvApply m ws = m
+  | [], _, _, _ => rfl
+  | (k, w) :: rest, m, hs, h => by
+    rw [kvApply_cons]
+    have hw : w = kvGet m k := h (k, w) (List.mem_cons_self ..)
+    subst hw
+    rw [kvWrite_self hs k]
+    exact kvApply_noop rest hs (fun kw hkw => h kw (List.mem_cons_of_mem _ hkw))
+
+theorem wsLookup_none : ∀ (ws : Writes V) (k : Key), k ∉ ws.map (·.1) → wsLookup ws k = none
+  | [], _, _ => rfl
+  | (k', w) :: rest, k, h => by
+    simp only [List.map_cons, List.mem_cons, not_or] at h
+    have hb : (k' == k) = false := by simpa using fun e => h.1 e.symm
+    simp only [wsLookup, hb]
+    exact wsLookup_none rest k h.2
 
 end Nomt.Finish
